@@ -11,4 +11,8 @@ ALLOW = {
     "E1|bytes_mut::BytesMut::reserve_inner|Sub|max(unwrap_or(checked_shl(.., ..), expect(.., ..)), expect(checked_add(.., ..), \"overflow\")) - len(.vec)":
         "new_cap = max(double, len + additional + off) >= off + len = v.len() after v.set_len(off + len) on the line above "
         "(checked_add on both sums; rule A8 ties set_len to the same operands)",
+    # E4 -----------------------------------------------------------------------------------
+    "E4|bytes_mut::BytesMut::reserve_inner|Vec::set_len on the shared Vec -> capacity overflow in Vec::reserve":
+        "dead state: the len of Shared.vec is never read by any handle (each handle keeps its own len) and u8 needs no drop, so a capacity-overflow "
+        "panic in Vec::reserve after v.set_len(off + len) leaves every handle's contents, length and capacity unchanged",
 }
